@@ -413,7 +413,7 @@ func (r *realm) onLeave(sess *wamp.Session, shutdown, killAll bool) {
 // HandleSession starts a session attached to this realm.
 //
 // Routing occurs only between WAMP Sessions that have joined the same Realm.
-func (r *realm) handleSession(sess *wamp.Session) error {
+func (r *realm) handleSession(sess *wamp.Session, welcome *wamp.Welcome) error {
 	// The lock is held in mutual exclusion with the closing of the realm. This
 	// ensures that no new session handler can start once the realm is closing,
 	// during which the realm waits for all existing session handlers to exit.
@@ -430,6 +430,11 @@ func (r *realm) handleSession(sess *wamp.Session) error {
 	// lock.
 	r.onJoin(sess)
 	r.closeLock.Unlock()
+
+	// Send WELCOME before the session handler starts. Once the handler runs
+	// it may exit and close the peer at any time (GOODBYE, lost transport,
+	// kill), so a later send could hit a closed peer.
+	sess.Send() <- welcome // Blocking OK; this is session goroutine.
 
 	if r.debug {
 		r.log.Println("Handling messages for session", sess)
